@@ -373,3 +373,7 @@ def _declared_reaches_solver(ctx):
 
 RULES = [r_task_oblig, r_horizon, r_drain, r_base_store, _declared_reaches_solver,
          lambda ctx: __import__("rules.validation", fromlist=["x"]).r_dup_name(ctx, only=('add_task',))]
+
+
+# the lists the solver drains are the model's own: it must leave them as they are (R-ARG-READONLY)
+RULES.append(lambda ctx: __import__("rules.driver", fromlist=["x"]).r_arg_readonly(ctx))
